@@ -161,14 +161,12 @@ def run(ctx):
 
     coqchk = None
     if ctx.tier == "thorough" and not ctx.replay and info["rc"] == 0:
-        # independent re-check of the compiled development by coqchk, and its axiom summary
-        g = os.path.join(common.VERIF, "coq", GROUP)
-        rc_chk, out_chk = common.sh(["coqchk", "-silent", "-o", "-Q", os.path.join(common.VERIF, "coq", "lib"), "FwdLib",
-                                     "-Q", g, ctx.group_logical(GROUP), ctx.group_logical(GROUP) + ".C08"], cwd=g, timeout=1500)
-        coqchk = " ".join(out_chk.split())[-400:]
-        if rc_chk != 0 or "Axioms: <none>" not in coqchk:
-            ob_failed.append("coqchk did not confirm an axiom-free development: " + coqchk)
-        ctx.log("coqchk:", "ok, no axioms" if rc_chk == 0 and "Axioms: <none>" in coqchk else coqchk)
+        # independent re-check of the compiled development (C08.v requires every part) by coqchk, and its axiom summary
+        coqchk = ctx.coqchk(GROUP, ["C08"])
+        good = coqchk.get("ok") and all(coqchk.get(k) == "<none>" for k in ("axioms", "type_in_type", "unsafe_fixpoints", "positivity_assumed"))
+        if not good:
+            ob_failed.append("coqchk did not confirm an axiom-free development: " + str(coqchk)[:400])
+        ctx.log("coqchk:", "ok, no axioms" if good else str(coqchk)[:300])
 
     hthread.join()
     hb, hlog = hres.get("hb"), hres.get("hlog", "")
@@ -223,7 +221,7 @@ def run(ctx):
         elif kind == "hcases":
             key = CONN_VERDICTS.get(v, "conn-verdict-%d" % v) + ":after-later-headers-were-read"
         elif kind == "ecases":
-            key = E2E_VERDICTS.get(v, "e2e-verdict-%d" % v) + (":tls-listener" if case.get("note") == "tls" else "")
+            key = E2E_VERDICTS.get(v, "e2e-verdict-%d" % v) + ((":%s-listener" % case.get("note")) if case.get("note") in ("tls", "ratelimit", "ratelimit+tls") else "")
         else:
             key = "%s-verdict-%d" % (kind, v)
         groups[key].append((len(raw), case))
@@ -289,8 +287,10 @@ def run(ctx):
         elif name == "after-all":
             if pr.get("status") != 200 or pr.get("xff") != "9.9.9.9":
                 bad = "after the timeout probes a well-formed connection got status %s xff %s" % (pr.get("status"), pr.get("xff"))
+        if pr.get("listener"):
+            name = "%s-%s-listener" % (name, pr.get("listener"))
         if bad:
-            ctx.violation("timeout-" + str(name), {"kind": "timeout", "probe": name, "observed": pr}, True, bad)
+            ctx.violation("timeout-" + str(name), {"kind": "timeout", "probe": name, "note": pr.get("listener", ""), "observed": pr}, True, bad)
 
     if not prop_bad and model_bad:
         by_kind = collections.defaultdict(list)
@@ -318,7 +318,7 @@ def run(ctx):
         "discharged": len(info["discharged"]) + len(ob_ok),
         "table_obligations": ob_names,
         "checker_cmd": "make -j16 (coq_makefile, full .vo) in coq/lib and coq/g08; coqc on the five property parts C08_*.v; coqc on %d cases shards (vm_compute)%s"
-                       % (sum(len(k["shards"]) for k in meta.get("kinds", [])), "; coqchk -silent -o G08.C08" if coqchk else ""),
+                       % (sum(len(k["shards"]) for k in meta.get("kinds", [])), ("; " + coqchk.get("cmd", "coqchk")) if coqchk else ""),
         "trusted_base": common.standard_trusted_base([
             "Print Assumptions per theorem: %s" % json.dumps(info["assumptions"]),
             "modelled, not verified: io.ReadFull / one-byte Read contract (rd n), net.ParseIP (Go 1.23 netip.ParseAddr, transcribed by hand "
